@@ -1,8 +1,8 @@
 (* C16 - The BUILD language agrees with Python on its documented subset.
    This file holds only the statement, the property theorems and their non-vacuity examples. *)
 From Coq Require Import Permutation Sorted.
-From PlzV Require Import Base.Harness Model.C16_Syntax Model.C16_Ops Model.C16_Prim Model.C16_Eval Model.C16 Model.C16_Pure Model.C16_Sort.
-From PlzV Require Import Proof.C16_Ops Proof.C16_Int Proof.C16 Proof.C16_Prog Proof.C16_Pure Proof.C16_Sort.
+From PlzV Require Import Base.Harness Model.C16_Syntax Model.C16_Ops Model.C16_Prim Model.C16_Eval Model.C16 Model.C16_Pure Model.C16_Sort Model.C16_Pure2.
+From PlzV Require Import Proof.C16_Ops Proof.C16_Int Proof.C16 Proof.C16_Prog Proof.C16_Pure Proof.C16_Sort Proof.C16_Pure2.
 
 (* Every program of the modelled subset (integers, strings, lists, dicts, comprehensions, functions, if/for and
    the builtins len sorted reversed range enumerate zip any all min max str join split ...) that asp evaluates
@@ -41,7 +41,19 @@ Print Assumptions C16_refuted.
       source calling sort.SliceStable (/repo 62283f2), the model covers lists of EVERY length (with sort.Slice: 12);
    6. d | e, for ALL operands and states, as the steps gotrans translated from pyDict.Operator: the result is a dict that did
       not exist before, no list and no existing dict is written, a later store into the result is invisible in every older
-      dict and vice versa; and these steps are the union of the evaluator (apply_bin) on every dict without duplicate keys. *)
+      dict and vice versa; and these steps are the union of the evaluator (apply_bin) on every dict without duplicate keys;
+   7. (second deepening) the ENLARGED pure fragment, whole programs: for every program p, every fuel: if the checked reference run
+      pure2_run of Model/C16_Pure2.v succeeds - a second heap-free evaluator that adds to the fragment of 0: user functions (def at
+      the top level with positional / keyword / scalar-literal default arguments, calls as expressions and statements, return,
+      recursion bounded by the fuel); list comprehensions with and without filter and with several loop names; for loops with
+      several names; for / comprehensions over range(...) with a positive step; the builtins len, str of scalars, bool, any, all,
+      reversed; dict literals whose keys are strictly ascending, indexing of lists / strings / dicts, `in` on lists of scalars and
+      on dicts, get / keys / values; join, split with a separator, startswith, endswith, upper, lower - then the asp run and the
+      CPython run print exactly the reference run's globals, up to the spare capacity the asp hook reports for a list built by a
+      filtered comprehension (ostrip_outcome; CPython has no such thing).  Kept OUT by the reference evaluator: defaults that are
+      not scalar literals (evaluated at call time by asp), def inside a function, an argument bound twice, a positional argument
+      after a keyword one, range with a step <= 0, a comprehension over a range whose Len() is smaller than the number of items
+      kept, int/bool comparisons inside `in`, dict literals with unsorted keys, += on lists, str() of containers. *)
 Definition C16_partial_statement : Prop :=
   (forall fuel (p : prog) ps,
      in_pure_subset p = true -> pure_run fuel p = Ok ps ->
@@ -84,7 +96,11 @@ Definition C16_partial_statement : Prop :=
         union_translated i j st = Ok (VDict n, st') -> (a < length (dicts st))%nat ->
         dict_of (dict_store n k x st') a = dict_of st a /\ dict_of (dict_store a k x st') n = dict_of st' n)
   /\ (forall fuel i j st, nodup_keys (dict_of st i) ->
-        apply_bin Asp fuel Union (VDict i) (VDict j) st = union_translated i j st).
+        apply_bin Asp fuel Union (VDict i) (VDict j) st = union_translated i j st)
+  /\ (forall fuel (p : prog) ps,
+        in_pure2_subset p = true -> pure2_run fuel p = Ok ps ->
+        map ostrip_outcome (run Asp [] fuel [p]) = map ostrip_outcome (run Py [] fuel [p])
+        /\ map ostrip_outcome (run Asp [] fuel [p]) = [OGlobals (pure2_obs ps) (pure2_obs ps)]).
 
 Theorem C16_partial : C16_partial_statement.
 Proof.
@@ -92,7 +108,7 @@ Proof.
         (conj (@chain_class_none_safe vexpr)
         (conj (@groupings_agree vexpr value)
         (conj int_ops_agree (conj list_add_always_fresh (conj int_chain_program_agrees
-        (conj asp_sorted_stable (conj asp_sorted_is_the_stable_sort (conj asp_sorted_perm_all_lengths (conj dict_union_always_fresh (conj dict_union_independent union_translated_is_apply_bin)))))))))))).
+        (conj asp_sorted_stable (conj asp_sorted_is_the_stable_sort (conj asp_sorted_perm_all_lengths (conj dict_union_always_fresh (conj dict_union_independent (conj union_translated_is_apply_bin pure2_subset_program_agrees))))))))))))).
 Qed.
 Print Assumptions C16_partial.
 
@@ -163,4 +179,75 @@ Example C16_partial_sort_union_nonvacuous :
                              /\ dict_of (dict_store n (s "k") (VInt 9%Z) st') 2 = [(s "a", VInt 1%Z); (s "k", VInt 9%Z)]
       | _ => False
       end).
+Proof. vm_compute. repeat split. Qed.
+
+(* ... and of conjunct 7, one construct of every step of the enlarged fragment:
+       def f(a, b=2): return a + b            x = f(1); y = f(1, b=5)
+       def fact(n): (if n <= 1: return 1); return n * fact(n - 1)          z = fact(5)
+       l = [i * 2 for i in range(4) if i > 0]; t = 0; for i in range(1, 4): t += i
+       m = len(l); r = reversed(l); a = any([0, m]); u = "-".join([str(i) for i in l])
+       d = {"a": 1, "b": 2}; v = d["a"]; w = d.get("c", 7); ks = d.keys(); e = "a" in d
+       sp = "a,b".split(","); sw = u.startswith("2-"); up = "ab".upper()
+   is in the fragment and its checked reference run succeeds with the globals below, so both dialects print them; the
+   two dialects' raw outputs DIFFER on it (l has spare capacity 1 in asp), which is why the theorem speaks of ostrip_outcome;
+   and the side conditions are needed: `d = {"b": 1, "a": 2}; ks = d.keys()` is in the syntactic fragment, the reference run
+   refuses it, and the two dialects differ on it (asp enumerates a dict sorted, CPython in insertion order). *)
+Local Open Scope Z_scope.
+Definition pure2_example : prog :=
+  let lit z := Ex (XInt z) [] None in
+  let id (n : str) := Ex (XIdent n) [] None in
+  let ve v := Ex v [] None in
+  let pa (e : expr) : option str * expr := (None, e) in
+  let st (x : str) := ve (XStr x) in
+  [ (* 1. functions *)
+    SDef (s "f") [(s "a", None); (s "b", Some (lit 2))] [SReturn (Some (Ex (XIdent (s "a")) [OBin Add (XIdent (s "b"))] None))];
+    SAssign (s "x") (ve (XCall (s "f") [pa (lit 1)]));
+    SAssign (s "y") (ve (XCall (s "f") [pa (lit 1); (Some (s "b"), lit 5)]));
+    SDef (s "fact") [(s "n", None)]
+      [SIf (Ex (XIdent (s "n")) [OBin Le (XInt 1)] None) [SReturn (Some (lit 1))] [] [];
+       SReturn (Some (Ex (XIdent (s "n")) [OBin Mul (XCall (s "fact") [pa (Ex (XIdent (s "n")) [OBin Sub (XInt 1)] None)])] None))];
+    SAssign (s "z") (ve (XCall (s "fact") [pa (lit 5)]));
+    (* 2. comprehensions, range *)
+    SAssign (s "l") (ve (XComp (Ex (XIdent (s "i")) [OBin Mul (XInt 2)] None) [s "i"] (ve (XCall (s "range") [pa (lit 4)]))
+                           (Some (Ex (XIdent (s "i")) [OBin C16_Syntax.Gt (XInt 0)] None))));
+    SAssign (s "t") (lit 0);
+    SFor [s "i"] (ve (XCall (s "range") [pa (lit 1); pa (lit 4)])) [SAug (s "t") (id (s "i"))];
+    (* 3. builtins *)
+    SAssign (s "m") (ve (XCall (s "len") [pa (id (s "l"))]));
+    SAssign (s "r") (ve (XCall (s "reversed") [pa (id (s "l"))]));
+    SAssign (s "a") (ve (XCall (s "any") [pa (ve (XList [lit 0; id (s "m")]))]));
+    SAssign (s "u") (ve (XMeth (XStr (s "-")) (s "join") [ve (XComp (ve (XCall (s "str") [pa (id (s "i"))])) [s "i"] (id (s "l")) None)]));
+    (* 4. dicts *)
+    SAssign (s "d") (ve (XDict [(st (s "a"), lit 1); (st (s "b"), lit 2)]));
+    SAssign (s "v") (ve (XIndex (XIdent (s "d")) (st (s "a"))));
+    SAssign (s "w") (ve (XMeth (XIdent (s "d")) (s "get") [st (s "c"); lit 7]));
+    SAssign (s "ks") (ve (XMeth (XIdent (s "d")) (s "keys") []));
+    SAssign (s "e") (Ex (XStr (s "a")) [OBin In (XIdent (s "d"))] None);
+    (* 5. string methods *)
+    SAssign (s "sp") (ve (XMeth (XStr (s "a,b")) (s "split") [st (s ",")]));
+    SAssign (s "sw") (ve (XMeth (XIdent (s "u")) (s "startswith") [st (s "2-")]));
+    SAssign (s "up") (ve (XMeth (XStr (s "ab")) (s "upper") [])) ].
+Local Close Scope Z_scope.
+
+Definition pure2_unsorted : prog :=
+  [ SAssign (s "d") (Ex (XDict [(Ex (XStr (s "b")) [] None, Ex (XInt 1%Z) [] None); (Ex (XStr (s "a")) [] None, Ex (XInt 2%Z) [] None)]) [] None);
+    SAssign (s "ks") (Ex (XMeth (XIdent (s "d")) (s "keys") []) [] None) ].
+
+Example C16_partial_pure2_nonvacuous :
+  in_pure2_subset pure2_example = true
+  /\ (match pure2_run FUEL pure2_example with
+      | Ok ps => pure2_obs ps =
+          [(s "a", OBool true); (s "d", ODict false [(s "a", OInt 1%Z); (s "b", OInt 2%Z)]); (s "e", OBool true);
+           (s "f", OFunc (s "f")); (s "fact", OFunc (s "fact")); (s "i", OInt 3%Z);
+           (s "ks", OList false 0 [OStr (s "a"); OStr (s "b")]); (s "l", OList false 0 [OInt 2%Z; OInt 4%Z; OInt 6%Z]);
+           (s "m", OInt 3%Z); (s "r", OList false 0 [OInt 6%Z; OInt 4%Z; OInt 2%Z]);
+           (s "sp", OList false 0 [OStr (s "a"); OStr (s "b")]); (s "sw", OBool true); (s "t", OInt 6%Z);
+           (s "u", OStr (s "2-4-6")); (s "up", OStr (s "AB")); (s "v", OInt 1%Z); (s "w", OInt 7%Z); (s "x", OInt 3%Z);
+           (s "y", OInt 6%Z); (s "z", OInt 120%Z)]
+      | _ => False
+      end)
+  /\ list_eqb outcome_eqb (run Asp [] FUEL [pure2_example]) (run Py [] FUEL [pure2_example]) = false
+  /\ in_pure_subset pure2_example = false
+  /\ in_pure2_subset pure2_unsorted = true /\ is_ok (pure2_run FUEL pure2_unsorted) = false
+  /\ list_eqb outcome_eqb (map ostrip_outcome (run Asp [] FUEL [pure2_unsorted])) (map ostrip_outcome (run Py [] FUEL [pure2_unsorted])) = false.
 Proof. vm_compute. repeat split. Qed.
